@@ -1,4 +1,75 @@
-(** Harness glue for C12 (stub: no families yet). *)
-From Coq Require Import List String.
-From KV Require Import Glue.Val.
-Definition c12_run (fam : string) (args : list val) : option string := None.
+(** Harness glue for C12: one line per string carrying the result of every integer type
+    and of bool.
+      c12.whole     <str> <ptr-bits>          -> parse_whole_m / parse_bool_whole_m
+      c12.prefix    <str> <ptr-bits> <base>   -> parser_parse_int / parser_parse_bool
+      c12.getparser <str> <ptr-bits> <base>   -> the same (StdParser::parse_with = parser.parse_T())
+      c12.stdspec   <str> <ptr-bits>          -> Spec.std_parse / std_parse_bool ('+' accepted)
+      c12.show      <int>                     -> Spec.show_int (decimal printing) *)
+From Coq Require Import List ZArith Bool String.
+From KV Require Import Base.Prelude Model.ParseInt Spec.ParseInt Glue.Val.
+Import ListNotations.
+Local Open Scope string_scope.
+
+(** name and type descriptor — in the order the harness prints them.  The fixed-width part is
+    a constant (so the extracted model computes the powers of two once, not per line). *)
+Definition ty_row (name : string) (w : Z) (sg : bool) : string * int_ty := (name, int_ty_of w sg).
+Definition fixed_types : list (string * int_ty) :=
+  [ty_row "u8" 8 false; ty_row "i8" 8 true; ty_row "u16" 16 false; ty_row "i16" 16 true;
+   ty_row "u32" 32 false; ty_row "i32" 32 true; ty_row "u64" 64 false; ty_row "i64" 64 true;
+   ty_row "u128" 128 false; ty_row "i128" 128 true]%Z.
+Definition ptr_types_64 : list (string * int_ty) := [ty_row "usize" 64 false; ty_row "isize" 64 true]%Z.
+Definition ptr_types_32 : list (string * int_ty) := [ty_row "usize" 32 false; ty_row "isize" 32 true]%Z.
+Definition int_types (ptr : Z) : list (string * int_ty) :=
+  fixed_types ++
+  (if (ptr =? 64)%Z then ptr_types_64 else if (ptr =? 32)%Z then ptr_types_32
+   else [ty_row "usize" ptr false; ty_row "isize" ptr true]).
+
+Definition show_kind (k : err_kind) : string :=
+  match k with ParseInteger => "I" | ParseBool => "B" end.
+
+(** Ok -> O(value, view of the remainder inside the input, start_offset afterwards);
+    Err -> E(kind, error offset) *)
+Definition show_fres {A} (f : A -> string) (s : list Z) (r : fres A) : string :=
+  match r with
+  | FOk v (so, s') =>
+      "O(" ++ f v ++ "," ++ show_view (zlen s - zlen s') (zlen s') ++ "," ++ show_Z so ++ ")"
+  | FErr k off => "E(" ++ show_kind k ++ "," ++ show_Z off ++ ")"
+  end.
+
+Definition c12_whole (s : list Z) (ptr : Z) : string :=
+  show_fields
+    (map (fun t : string * int_ty => (fst t, show_opt show_Z (parse_whole_t (snd t) s)))
+         (int_types ptr)
+     ++ [("bool", show_opt show_bool (parse_bool_whole_m s))]).
+
+Definition c12_prefix (s : list Z) (ptr base : Z) : string :=
+  show_fields
+    (map (fun t : string * int_ty => (fst t, show_fres show_Z s (parser_parse_int_t (snd t) (base, s))))
+         (int_types ptr)
+     ++ [("bool", show_fres show_bool s (parser_parse_bool (base, s)))]).
+
+Definition std_types (ptr : Z) : list (string * Z * bool) :=
+  [("u8", 8, false); ("i8", 8, true); ("u16", 16, false); ("i16", 16, true);
+   ("u32", 32, false); ("i32", 32, true); ("u64", 64, false); ("i64", 64, true);
+   ("u128", 128, false); ("i128", 128, true); ("usize", ptr, false); ("isize", ptr, true)]%Z.
+
+Definition c12_stdspec (s : list Z) (ptr : Z) : string :=
+  show_fields
+    (map (fun t : string * Z * bool =>
+            let '(name, w, sg) := t in (name, show_opt show_Z (std_parse w sg s)))
+         (std_types ptr)
+     ++ [("bool", show_opt show_bool (std_parse_bool s))]).
+
+Definition c12_run (fam : string) (args : list val) : option string :=
+  match args with
+  | [s; ptr] =>
+      if String.eqb fam "c12.whole" then Some (c12_whole (as_bytes s) (as_Z ptr))
+      else if String.eqb fam "c12.stdspec" then Some (c12_stdspec (as_bytes s) (as_Z ptr))
+      else None
+  | [v] => if String.eqb fam "c12.show" then Some (show_bytes (show_int (as_Z v))) else None
+  | [s; ptr; base] =>
+      if String.eqb fam "c12.prefix" then Some (c12_prefix (as_bytes s) (as_Z ptr) (as_Z base))
+      else if String.eqb fam "c12.getparser" then Some (c12_prefix (as_bytes s) (as_Z ptr) (as_Z base))
+      else None
+  | _ => None
+  end.
